@@ -11,11 +11,14 @@ package mapping
 
 import (
 	"bytes"
+	"encoding"
+	"encoding/json"
 	"errors"
 	"fmt"
 	"math"
 	"math/big"
 	"reflect"
+	"strconv"
 	"strings"
 	"testing"
 	"time"
@@ -34,6 +37,35 @@ func (t *c05nText) UnmarshalText(b []byte) error {
 }
 
 type c05nStr string
+
+// field types with their own text form, one per underlying kind (pointer receivers), plus one that only
+// implements json.Unmarshaler (which this package does not consult)
+type c05tInt int
+type c05tStr string
+type c05tFloat float64
+type c05tBool bool
+type c05tSlice []string
+type c05tMap map[string]string
+type c05jInt int
+
+func (t *c05tInt) UnmarshalText(b []byte) error {
+	n, err := strconv.Atoi(string(b))
+	*t = c05tInt(n + 1000)
+	return err
+}
+func (t *c05tStr) UnmarshalText(b []byte) error { *t = c05tStr("<" + string(b) + ">"); return nil }
+func (t *c05tFloat) UnmarshalText(b []byte) error {
+	f, err := strconv.ParseFloat(string(b), 64)
+	*t = c05tFloat(f + 0.25)
+	return err
+}
+func (t *c05tBool) UnmarshalText(b []byte) error { *t = string(b) == "yes"; return nil }
+func (t *c05tSlice) UnmarshalText(b []byte) error {
+	*t = strings.Split(string(b), "+")
+	return nil
+}
+func (t *c05tMap) UnmarshalText(b []byte) error { *t = c05tMap{"text": string(b)}; return nil }
+func (t *c05jInt) UnmarshalJSON(b []byte) error { *t = -1; return nil }
 
 type c05nErrReader struct{}
 
@@ -157,6 +189,42 @@ func TestVerifC05Native(t *testing.T) {
 			}
 			return fmt.Sprintf("T=%q from %s", tx.T.S, dv)
 		})
+	}
+
+	// ---- TextUnmarshaler types of every underlying kind, value and pointer members, fed every kind of document
+	// value: error, or the value arrives (through UnmarshalText for strings, exactly as the underlying kind otherwise);
+	// never "no error" with the document's value lost
+	tuTypes := []reflect.Type{reflect.TypeOf(c05tInt(0)), reflect.TypeOf(c05tStr("")), reflect.TypeOf(c05tFloat(0)), reflect.TypeOf(c05tBool(false)),
+		reflect.TypeOf(c05tSlice(nil)), reflect.TypeOf(c05tMap(nil)), reflect.TypeOf(c05nText{}), reflect.TypeOf(c05jInt(0))}
+	tuDocs := []string{`"12"`, `"yes"`, `"a+b"`, `""`, `7`, `0`, `1.5`, `true`, `false`, `[1]`, `["a","b"]`, `[]`, `{"k":"v"}`, `{"S":"x"}`, `{}`}
+	for _, tt := range tuTypes {
+		for _, ptr := range []bool{false, true} {
+			for _, dv := range tuDocs {
+				for _, epn := range []string{"UnmarshalJsonBytes", "UnmarshalYamlBytes", "UnmarshalJsonMap"} {
+					tt, ptr, dv, epn := tt, ptr, dv, epn
+					ft := tt
+					if ptr {
+						ft = reflect.PointerTo(tt)
+					}
+					typ := reflect.StructOf([]reflect.StructField{{Name: "V", Type: ft, Tag: `json:"v,optional"`}})
+					ep := eps[epn]
+					var res reflect.Value
+					add("text-unmarshaler-kinds", fmt.Sprintf("%s (pointer member=%v) <- %s via %s", tt, ptr, dv, epn), "free", func() error {
+						res = reflect.New(typ)
+						return ep(`{"v":`+dv+`}`, res.Interface())
+					}, func() string {
+						f := res.Elem().Field(0)
+						if ptr {
+							if f.IsNil() {
+								return "no error, but the pointer member is nil: the document's value " + dv + " is lost"
+							}
+							f = f.Elem()
+						}
+						return c05nTextArrived(tt, f, dv)
+					})
+				}
+			}
+		}
 	}
 
 	// ---- Go-native values through UnmarshalKey
@@ -289,6 +357,12 @@ func TestVerifC05Native(t *testing.T) {
 	forms := []contForm{
 		{"[]T <- []any", reflect.SliceOf, func(v any) any { return []any{v} }},
 		{"[]T <- typed slice", reflect.SliceOf, typedSlice},
+		{"*[]T <- []any", func(e reflect.Type) reflect.Type { return reflect.PointerTo(reflect.SliceOf(e)) }, func(v any) any { return []any{v} }},
+		{"*map[string]T <- map[string]any", func(e reflect.Type) reflect.Type { return reflect.PointerTo(reflect.MapOf(reflect.TypeOf(""), e)) }, func(v any) any { return map[string]any{"k": v} }},
+		{"*map[string][]T <- map[string]any of []any", func(e reflect.Type) reflect.Type {
+			return reflect.PointerTo(reflect.MapOf(reflect.TypeOf(""), reflect.SliceOf(e)))
+		}, func(v any) any { return map[string]any{"k": []any{v}} }},
+		{"*[]*T <- []any", func(e reflect.Type) reflect.Type { return reflect.PointerTo(reflect.SliceOf(reflect.PointerTo(e))) }, func(v any) any { return []any{v} }},
 		{"[]*T <- []any", func(e reflect.Type) reflect.Type { return reflect.SliceOf(reflect.PointerTo(e)) }, func(v any) any { return []any{v} }},
 		{"[][]T <- [][]any", func(e reflect.Type) reflect.Type { return reflect.SliceOf(reflect.SliceOf(e)) }, func(v any) any { return []any{[]any{v}} }},
 		{"[][]T <- []any of typed slices", func(e reflect.Type) reflect.Type { return reflect.SliceOf(reflect.SliceOf(e)) }, func(v any) any { return []any{typedSlice(v)} }},
@@ -1073,6 +1147,78 @@ func TestVerifC05Native(t *testing.T) {
 		}
 	}
 	m.Sample(map[string]any{"rows": len(rows)})
+}
+
+// c05nTextArrived: did the document value dv (JSON text) arrive in the member f of type tt?
+func c05nTextArrived(tt reflect.Type, f reflect.Value, dv string) string {
+	var doc any
+	dec := json.NewDecoder(strings.NewReader(dv))
+	dec.UseNumber()
+	if err := dec.Decode(&doc); err != nil {
+		return ""
+	}
+	lost := func() string {
+		return fmt.Sprintf("no error, but the member is %#v: the document's value %s did not arrive", f.Interface(), dv)
+	}
+	if s, isStr := doc.(string); isStr {
+		if tu, ok := reflect.New(tt).Interface().(encoding.TextUnmarshaler); ok {
+			want := reflect.ValueOf(tu)
+			if err := tu.UnmarshalText([]byte(s)); err == nil && reflect.DeepEqual(want.Elem().Interface(), f.Interface()) {
+				return ""
+			}
+		}
+		// taken as plain text for the underlying kind
+		if f.Kind() == reflect.String && f.String() == s {
+			return ""
+		}
+		if (f.Kind() == reflect.Int || f.Kind() == reflect.Float64) && c05nSameValue(s, f) {
+			return ""
+		}
+		return lost()
+	}
+	switch x := doc.(type) {
+	case json.Number:
+		if f.Kind() == reflect.Bool || !c05nSameValue(string(x), f) {
+			return lost()
+		}
+	case bool:
+		if f.Kind() != reflect.Bool || f.Bool() != x {
+			return lost()
+		}
+	case []any:
+		if f.Kind() != reflect.Slice || f.Len() != len(x) {
+			return lost()
+		}
+		for i, e := range x {
+			es, ok := e.(string)
+			if n, isNum := e.(json.Number); isNum {
+				es, ok = string(n), true // number -> string element, textually exact: tolerated
+			}
+			if !ok || f.Index(i).String() != es {
+				return lost()
+			}
+		}
+	case map[string]any:
+		switch f.Kind() {
+		case reflect.Map:
+			if f.Len() != len(x) {
+				return lost()
+			}
+			for k, e := range x {
+				mv := f.MapIndex(reflect.ValueOf(k))
+				if es, ok := e.(string); !ok || !mv.IsValid() || mv.String() != es {
+					return lost()
+				}
+			}
+		case reflect.Struct:
+			if sv, ok := x["S"].(string); !ok || f.Field(0).String() != sv {
+				return lost()
+			}
+		default:
+			return lost()
+		}
+	}
+	return ""
 }
 
 // c05nFirstLeaf descends to the first scalar inside slices / maps / pointers / one-field structs.
